@@ -231,8 +231,38 @@ def gen_C09(rng, tier):
     return scn
 
 
+def crash_spec(rng, sigs=("KILL", "TERM", "INT")):
+    r = rng.random()
+    if r < 0.3:
+        trig = {"step": rng.randint(1, 160)}
+    elif r < 0.6:
+        kind = rng.choice(["spawn", "body-start", "body-end", "proc-exit", "submit-return", "flock", "funlock", "xp-entered"])
+        trig = {"event": kind, "nth": rng.randint(1, 4), "delay": rng.choice([0, 0, 1, 2, 5, 12])}
+    else:
+        trig = {"line_frac": rng.random()}
+    return {"sig": rng.choice(sigs), "trigger": trig}
+
+
+def gen_C11(rng, tier):
+    scn = base(rng, 1, 5, p_dep=0.7)
+    n = len(scn["tasks"])
+    if rng.random() < 0.35:
+        add_tokens(rng, scn, kinds=("file",), max_tokens=1)
+    if rng.random() < 0.15:
+        add_failures(rng, scn, 0.3)
+    plan = simple_plan(rng, n, waits=rng.random() < 0.5) + [["xpwait"]]
+    scn["procs"].append({"xp": "x0", "plan": plan, "crash": crash_spec(rng)})
+    start = {"after_exit": 0}
+    if rng.random() < 0.3:
+        start["jobs_ended"] = True
+    scn["procs"].append({"xp": "x0", "plan": [list(op) for op in plan], "start": start})
+    if scn["procs"][0]["crash"]["trigger"].get("line_frac") is None and rng.random() < 0.2:
+        maybe_trace(rng, scn, 1.0)
+    return scn
+
+
 PROFILES = {
-    "C04": gen_C04, "C05": gen_C05, "C06": gen_C06, "C07": gen_C07, "C08": gen_C08, "C09": gen_C09,
+    "C04": gen_C04, "C05": gen_C05, "C06": gen_C06, "C07": gen_C07, "C08": gen_C08, "C09": gen_C09, "C11": gen_C11,
 }
 
 
